@@ -972,6 +972,9 @@ pub fn run(report: &Report) {
     run_schedules(report, &mut total, q);
     batch_forms_chain(report, &mut total);
     single_step_part(report, &mut total, q);
+    super::pyfront::sweep(report, "chain_histories", if q { 5 } else { 6 },
+        "Python ChainCoder over 4 sealed data strings: every interleaving up to the listed depth of decodes (one symbol with each of 4 models, two symbols iid, two symbols with per-symbol parameters) and re-encodes of the most recent symbols (one, two iid, two with parameters); at every node a clone that encodes everything back returns the data through get_data(unseal=True)",
+        &[], &[]);
     super::pyfront::sweep(report, "misuse", 0,
         "Python ChainCoder.get_data on coders whose content cannot be exported that way (unsealing data that was never sealed, a fractional number of words): an error, never a silently shortened result, coder unchanged",
         &["ChainCoder.get_data"], &[]);
